@@ -249,6 +249,29 @@ def samples_per_chunk(c, cmd):
     return play_opts(c, cmd)[0] * (shape_of(c)["channels"] or 1)
 
 
+def is_mix(c):
+    return c.get("entry") == "mix"
+
+
+def open_faults(c):
+    """ordinals of the pa.open calls that raise: the play calls marked {"openfail": true} (a play on a
+    finished manager raises ThreadError before it opens anything; a record() after terminate is refused
+    by the backend before the call counts)"""
+    out, n, closed = [], 0, False
+    for cmd in full_script(c):
+        if cmd[0] == "play":
+            if not closed:
+                if len(cmd) > 2 and cmd[2].get("openfail"):
+                    out.append(n)
+                n += 1
+        elif cmd[0] == "record":
+            if not closed:
+                n += 1
+        elif cmd[0] == "close":
+            closed = True
+    return out
+
+
 def write_faults(c):
     """{player index: number of writes that succeed before one raises} (JSON keys are strings)"""
     return {int(k): v for k, v in (c.get("faults") or {}).get("write", {}).items()}
@@ -392,7 +415,9 @@ def run_case(c, pinned=False):
     S = sched.Scheduler(c.get("schedule", ()), BUDGET, namer)
     be.owner = S
     sh = shape_of(c)
-    be.faults = {"write": write_faults(c), "open": list((c.get("faults") or {}).get("open", []))}
+    be.faults = {"write": write_faults(c), "open": list((c.get("faults") or {}).get("open", [])) + open_faults(c),
+                 "terminate": bool((c.get("faults") or {}).get("terminate")),
+                 "close": list((c.get("faults") or {}).get("close", []))}
     be.apis = [dict(a) for a in API_INFOS] if sh["api"] else []
 
     # the played objects (built outside the scheduled world: no yield point)
@@ -421,7 +446,8 @@ def run_case(c, pinned=False):
         return shared[g][how]
 
     def snapshot(io):
-        return [[bool(th._alive_now()) for th in S.thread_objs], len(io._pa._streams)]
+        # (a thread object whose pa.open raised was never started: it is no player thread)
+        return [[bool(th._alive_now()) for th in S.thread_objs if th._rec is not None], len(io._pa._streams)]
 
     def body(io):
         nplay = 0
@@ -447,6 +473,16 @@ def run_case(c, pinned=False):
                 elif op == "close":
                     getattr(io, sh["close_how"])()
                     ctx["log"].append(["close", "ok"] + snapshot(io))
+                elif op == "record":
+                    ctx["started"].append({"m": None, "rec": True, "cs": cmd[1], "frames": cmd[1], "dfmt": "f",
+                                           "fail": False, "scale": 1})
+                    try:
+                        r = io.record(chunk_size=cmd[1])
+                    except Exception:
+                        ctx["started"].pop()
+                        raise
+                    ctx.setdefault("recs", []).append(r)
+                    ctx["log"].append(["record", "ok"])
                 else:
                     i = cmd[1]
                     if i >= len(ctx["ths"]):
@@ -501,6 +537,7 @@ def run_case(c, pinned=False):
                 "m": None, "cs": c["cs"], "frames": c["cs"], "dfmt": "f", "fail": False, "scale": 1}
             wf = be.faults["write"].get(k)
             sts.append({"written": [decode(d, info["cs"], info["dfmt"], info["scale"]) for d, _n in st.writes],
+                        "input": bool(info.get("rec")), "closes": st.calls.count("close"), "reads": len(st.reads),
                         "nframes": sorted({n for _d, n in st.writes}),
                         "state": st.state, "m": info["m"], "cs": info["cs"], "frames": info["frames"],
                         "dfmt": info["dfmt"], "fail": info["fail"],
@@ -509,8 +546,10 @@ def run_case(c, pinned=False):
         obs.update({
             "log": [list(e) for e in ctx["log"]],
             "streams": sts,
-            "alive": [bool(th._alive_now()) for th in S.thread_objs],
-            "halting": [bool(getattr(th, "halting", False)) for th in S.thread_objs],
+            "alive": [bool(th._alive_now()) for th in S.thread_objs if th._rec is not None],
+            "halting": [bool(getattr(th, "halting", False)) for th in S.thread_objs if th._rec is not None],
+            "ghosts": sum(1 for th in S.thread_objs if th._rec is None),
+            "recordings": len(getattr(io, "_recordings", [])) if io is not None else 0,
             "terminates": be.terminates,
             "opens": be.opens,
             "finished": bool(getattr(io, "finished", False)) if io is not None else False,
